@@ -423,3 +423,339 @@ Proof.
   cbn [option_map StateInConstruction_is_final StateInConstruction_default_successor StateInConstruction_transitions s_final s_default s_trans].
   rewrite map_app. reflexivity.
 Qed.
+
+(* ================= AutomatonBuilder::build and build_unchecked: the loop over the states ================= *)
+Definition convst (s : State) : astate :=
+  {| a_id := State_id s; a_final := State_is_final s; a_classes := convp (State_classes s);
+     a_succ := State_successor s; a_default := State_default_successor s |}.
+Definition conva (a : Automaton) : automaton :=
+  {| num_states := Automaton_num_states a; num_final := Automaton_num_final_states a;
+     initial := Automaton_initial_state a; astates := map convst (Automaton_states a) |}.
+Definition convb_states (b : AutomatonBuilder) : list sic := map convs (AutomatonBuilder_states b).
+Definition conve (e : Error) : option berr :=
+  match e with
+  | Error_NonDisjointCharSets => Some NonDisjointCharSets
+  | Error_EmptyComplementaryClass => Some EmptyComplementaryClass
+  | Error_MissingDefaultSuccessor => Some MissingDefaultSuccessor
+  | _ => None
+  end.
+
+(* the binary search needs at most j - i + 1 rounds: any larger fuel gives the same answer *)
+Lemma bs_char_fuel : forall f1 f2 l x i j, (j - i < f1)%nat -> (j - i < f2)%nat ->
+  bs_char f1 l x i j = bs_char f2 l x i j.
+Proof.
+  induction f1 as [|f1 IH]; intros f2 l x i j H1 H2; [lia|].
+  destruct f2 as [|f2]; [lia|]. cbn [bs_char].
+  destruct (Nat.ltb i j) eqn:Eij; [|reflexivity]. apply Nat.ltb_lt in Eij.
+  cbv [bind]. destruct (nth_error l (i + (j - i) / 2)) as [s|]; [|reflexivity].
+  destruct (cs_contains s x); [reflexivity|].
+  destruct (cs_is_before s x); apply IH; lia.
+Qed.
+Lemma link_class_of_char_fuel fuel p x : (length (CharPartition_list p) < fuel)%nat ->
+  option_map convc (M_CharPartition_class_of_char fuel p x) = pclass_of_char (convp p) x.
+Proof.
+  intros Hf. destruct p as [l w]. autounfold with rs2v. unfold pclass_of_char, convp, plen, ivs, CharPartition_list in *.
+  rewrite map_length. rewrite (bs_char_fuel (S (length l)) fuel) by (rewrite ?map_length; lia).
+  rewrite <- link_bs_char. unfold bind.
+  destruct (CharPartition_class_of_char_binary_search_loop1 _ l x 0 (length l)) as [[c|[a b]]|]; reflexivity.
+Qed.
+
+Lemma link_succ_loop_fuel fuel p : (length (CharPartition_list p) < fuel)%nat ->
+  forall l r, length r = length (CharPartition_list p) ->
+  succ_res (StateInConstruction_make_successor_loop1 fuel l p r)
+  = fold_left (succ_f (convp p)) (map convt l) (Some r).
+Proof.
+  intros Hf. induction l as [|[c x] l IH]; intros r Hr; [reflexivity|].
+  cbn [StateInConstruction_make_successor_loop1 map fold_left]. cbn [fst snd].
+  rewrite link_cs_pick. cbn [bind].
+  pose proof (link_class_of_char_fuel fuel p (cs_pick (conv c)) Hf) as Hc.
+  change (convt (c, x)) with (conv c, x). cbn [succ_f fst snd].
+  destruct (M_CharPartition_class_of_char fuel p (cs_pick (conv c))) as [[h|]|];
+    cbn [option_map convc] in Hc; rewrite <- Hc.
+  - assert (Hh : (h < length r)%nat).
+    { rewrite Hr. pose proof (pclass_in_range (convp p) _ h (eq_sym Hc)) as H.
+      unfold convp in H. cbn [ivs] in H. rewrite map_length in H. exact H. }
+    cbn [bind]. rewrite (list_upd_upd r h x Hh). cbn [bind]. apply IH. rewrite upd_len. exact Hr.
+  - cbn [bind]. rewrite fold_succ_none. reflexivity.
+  - cbn [bind]. rewrite fold_succ_none. reflexivity.
+Qed.
+
+Lemma link_make_successor_fuel fuel s p : (length (CharPartition_list p) < fuel)%nat ->
+  M_StateInConstruction_make_successor fuel s p = make_successor (convs s) (convp p).
+Proof.
+  intros Hf. unfold M_StateInConstruction_make_successor, StateInConstruction_make_successor, make_successor.
+  rewrite link_len. cbn [bind].
+  pose proof (link_succ_loop_fuel fuel p Hf (StateInConstruction_transitions s) (repeat 0%nat (plen (convp p)))) as H.
+  assert (Hlen : length (repeat 0%nat (plen (convp p))) = length (CharPartition_list p)).
+  { rewrite repeat_length. unfold plen, convp. cbn [ivs]. apply map_length. }
+  specialize (H Hlen).
+  change (fold_left _ (s_trans (convs s)) _) with
+    (fold_left (succ_f (convp p)) (map convt (StateInConstruction_transitions s)) (Some (repeat 0%nat (length (ivs (convp p)))))).
+  unfold plen in *. rewrite <- H.
+  destruct (StateInConstruction_make_successor_loop1 _ _ p _) as [[r|r]|]; reflexivity.
+Qed.
+
+Lemma link_empty_complement p : M_CharPartition_empty_complement p = Some (pempty_complement (convp p)).
+Proof. reflexivity. Qed.
+
+(* sorting keeps the number of intervals: the partition made from k labels has k intervals *)
+Lemma insert_len x l : length (insert_by_start x l) = S (length l).
+Proof. induction l as [|y l IH]; cbn [insert_by_start length]; [reflexivity|]. destruct (_ <=? _); cbn [length]; lia. Qed.
+Lemma sort_len l : length (sort_by_start l) = length l.
+Proof. unfold sort_by_start. induction l as [|x l IH]; cbn [fold_right length]; [reflexivity|]. rewrite insert_len, IH. reflexivity. Qed.
+Lemma ptry_len l p : ptry_from_list l = Some p -> length (ivs p) = length l.
+Proof.
+  unfold ptry_from_list. rewrite <- (sort_len l). destruct (sort_by_start l) as [|c0 t].
+  - intros H. injection H as <-. reflexivity.
+  - destruct (scan_sorted c0 _ t); [|discriminate]. intros H. injection H as <-. reflexivity.
+Qed.
+
+(* what the loop needs of one state: the i32 vote counter cannot overflow, the labels are legal sets,
+   and the fuel suffices for the class searches in a partition made from (a subset of) its labels *)
+Definition state_ok (fuel : nat) (s : StateInConstruction) : Prop :=
+  (Z.of_nat (length (StateInConstruction_transitions s)) < 2147483647)%Z /\ labels_valid s /\
+  (length (StateInConstruction_transitions s) < fuel)%nat.
+
+Lemma filter_len_le {A} (f : A -> bool) l : (length (filter f l) <= length l)%nat.
+Proof. induction l as [|x l IH]; cbn [filter length]; [lia|]. destruct (f x); cbn [length]; lia. Qed.
+Lemma remove_spec_len s : (length (StateInConstruction_transitions (remove_spec s)) <= length (StateInConstruction_transitions s))%nat.
+Proof.
+  unfold remove_spec. destruct (StateInConstruction_default_successor s); [|lia].
+  cbn [StateInConstruction_transitions]. apply filter_len_le.
+Qed.
+Lemma choose_spec_trans s : StateInConstruction_transitions (choose_spec s) = StateInConstruction_transitions s.
+Proof.
+  unfold choose_spec. destruct (StateInConstruction_default_successor s); [reflexivity|].
+  destruct (StateInConstruction_transitions s) as [|[c0 x0] t] eqn:E; [auto|].
+  destruct (Nat.leb _ _); [reflexivity|exact E].
+Qed.
+Lemma remove_spec_valid s : labels_valid s -> labels_valid (remove_spec s).
+Proof.
+  unfold labels_valid, remove_spec. destruct (StateInConstruction_default_successor s); [|auto].
+  cbn [StateInConstruction_transitions]. intros H. rewrite Forall_forall in *. intros c Hc.
+  apply in_map_iff in Hc. destruct Hc as [t [<- Ht]]. apply filter_In in Ht. apply H. apply in_map. tauto.
+Qed.
+Lemma cleaned_ok fuel s : state_ok fuel s -> state_ok fuel (remove_spec (choose_spec s)).
+Proof.
+  intros (Hs & Hv & Hf). pose proof (remove_spec_len (choose_spec s)) as Hl. rewrite choose_spec_trans in Hl.
+  split; [lia|]. split; [|lia]. apply remove_spec_valid. unfold labels_valid. rewrite choose_spec_trans. exact Hv.
+Qed.
+
+Definition loop_res (r : option (loopres (AutomatonBuilder * result Automaton Error) (list StateInConstruction * nat * list State))) :
+  option (option (berr + (nat * list astate))) :=
+  match r with
+  | Some (LoopReturn (_, Err e)) => Some (option_map inl (conve e))
+  | Some (LoopReturn (_, Ok _)) => Some None              (* the loop never returns Ok *)
+  | Some (LoopDone (_, n, sa)) => Some (Some (inr (n, map convst sa)))
+  | None => None
+  end.
+Definition model_res (n : nat) (sa : list astate) (r : option (berr + list astate)) : option (option (berr + (nat * list astate))) :=
+  match r with
+  | Some (inl e) => Some (Some (inl e))
+  | Some (inr sts) => Some (Some (inr ((n + length (filter a_final sts))%nat, sa ++ sts)))
+  | None => None
+  end.
+
+(* one state, first half: make_partition on legal labels *)
+Lemma make_partition_cases s : labels_valid s ->
+  (exists p, M_StateInConstruction_make_partition s = Some (Ok p) /\
+             ptry_from_list (map fst (s_trans (convs s))) = Some (convp p)) \/
+  (M_StateInConstruction_make_partition s = Some (Err Error_NonDisjointCharSets) /\
+   ptry_from_list (map fst (s_trans (convs s))) = None).
+Proof.
+  intros Hv. pose proof (link_make_partition s Hv) as H.
+  destruct (M_StateInConstruction_make_partition s) as [[p|[]]|]; cbn [try_res] in H; try discriminate; injection H as H.
+  - left. exists p. split; [reflexivity|symmetry; exact H].
+  - right. split; [reflexivity|symmetry; exact H].
+Qed.
+
+Lemma has_default_convs s :
+  has_default (convs s) = match StateInConstruction_default_successor s with Some _ => true | None => false end.
+Proof. reflexivity. Qed.
+
+Lemma link_build_loop fuel self : forall l i acc n sa, Forall (state_ok fuel) l ->
+  loop_res (AutomatonBuilder_build_loop1 fuel (combine (seq i (length l)) l) self acc n sa)
+  = model_res n (map convst sa) (build_states_checked (map convs l) i).
+Proof.
+  induction l as [|s l IH]; intros i acc n sa Hok.
+  - cbn. rewrite Nat.add_0_r, app_nil_r. reflexivity.
+  - inversion Hok as [|? ? Hs Hl]; subst. destruct Hs as (Hsmall & Hv & Hf).
+    cbn [length seq combine AutomatonBuilder_build_loop1 map build_states_checked].
+    destruct (make_partition_cases s Hv) as [(p0 & -> & ->)|(-> & ->)]; [|reflexivity].
+    cbn [bind]. rewrite !link_empty_complement. rewrite has_default_convs.
+    destruct (StateInConstruction_default_successor s) as [d|] eqn:Ed; cbn [bind andb negb].
+    + destruct (pempty_complement (convp p0)); [reflexivity|]. cbn [andb].
+      (* cleanup and the second partition *)
+      rewrite (canon_cleanup s Hsmall). cbn [bind].
+      assert (Hc : convs (remove_spec (choose_spec s)) = cleanup (convs s)).
+      { pose proof (link_cleanup s Hsmall) as H. rewrite (canon_cleanup s Hsmall) in H. cbn [option_map] in H. congruence. }
+      set (s1 := remove_spec (choose_spec s)) in *.
+      destruct (cleaned_ok fuel s (conj Hsmall (conj Hv Hf))) as (Hs1 & Hv1 & Hf1). fold s1 in Hs1, Hv1, Hf1.
+      rewrite <- Hc.
+      destruct (make_partition_cases s1 Hv1) as [(p & -> & Hp)|(-> & ->)]; [|reflexivity]. rewrite Hp. cbn [bind].
+      assert (Hpl : (length (CharPartition_list p) < fuel)%nat).
+      { apply ptry_len in Hp. unfold convp in Hp. cbn [ivs] in Hp. rewrite !map_length in Hp.
+        unfold convs in Hp. cbn [s_trans] in Hp. rewrite map_length in Hp. lia. }
+      rewrite (link_make_successor_fuel fuel s1 p Hpl).
+      destruct (make_successor (convs s1) (convp p)) as [suc|]; [|reflexivity]. cbn [bind].
+      destruct (StateInConstruction_is_final s1) eqn:Ef.
+      * rewrite IH by exact Hl. rewrite map_app. cbn [map].
+        destruct (build_states_checked (map convs l) (S i)) as [[e|sts]|]; cbn [model_res bind]; try reflexivity.
+        unfold convst at 2. cbn [a_final filter State_is_final length]. unfold convs at 1. cbn [s_final]. rewrite Ef.
+        cbn [length]. rewrite <- app_assoc. cbn [app]. do 4 f_equal; [lia|].
+        unfold convst, convs. cbn [State_id State_is_final State_classes State_successor State_default_successor s_final s_default].
+        rewrite Ef. reflexivity.
+      * rewrite IH by exact Hl. rewrite map_app. cbn [map].
+        destruct (build_states_checked (map convs l) (S i)) as [[e|sts]|]; cbn [model_res bind]; try reflexivity.
+        unfold convst at 2. cbn [a_final filter State_is_final length]. unfold convs at 1. cbn [s_final]. rewrite Ef.
+        rewrite <- app_assoc. cbn [app]. do 4 f_equal.
+        unfold convst, convs. cbn [State_id State_is_final State_classes State_successor State_default_successor s_final s_default].
+        rewrite Ef. reflexivity.
+    + destruct (pempty_complement (convp p0)); cbn [negb andb]; [|reflexivity].
+      rewrite (canon_cleanup s Hsmall). cbn [bind].
+      assert (Hc : convs (remove_spec (choose_spec s)) = cleanup (convs s)).
+      { pose proof (link_cleanup s Hsmall) as H. rewrite (canon_cleanup s Hsmall) in H. cbn [option_map] in H. congruence. }
+      set (s1 := remove_spec (choose_spec s)) in *.
+      destruct (cleaned_ok fuel s (conj Hsmall (conj Hv Hf))) as (Hs1 & Hv1 & Hf1). fold s1 in Hs1, Hv1, Hf1.
+      rewrite <- Hc.
+      destruct (make_partition_cases s1 Hv1) as [(p & -> & Hp)|(-> & ->)]; [|reflexivity]. rewrite Hp. cbn [bind].
+      assert (Hpl : (length (CharPartition_list p) < fuel)%nat).
+      { apply ptry_len in Hp. unfold convp in Hp. cbn [ivs] in Hp. rewrite !map_length in Hp.
+        unfold convs in Hp. cbn [s_trans] in Hp. rewrite map_length in Hp. lia. }
+      rewrite (link_make_successor_fuel fuel s1 p Hpl).
+      destruct (make_successor (convs s1) (convp p)) as [suc|]; [|reflexivity]. cbn [bind].
+      destruct (StateInConstruction_is_final s1) eqn:Ef.
+      * rewrite IH by exact Hl. rewrite map_app. cbn [map].
+        destruct (build_states_checked (map convs l) (S i)) as [[e|sts]|]; cbn [model_res bind]; try reflexivity.
+        unfold convst at 2. cbn [a_final filter State_is_final length]. unfold convs at 1. cbn [s_final]. rewrite Ef.
+        cbn [length]. rewrite <- app_assoc. cbn [app]. do 4 f_equal; [lia|].
+        unfold convst, convs. cbn [State_id State_is_final State_classes State_successor State_default_successor s_final s_default].
+        rewrite Ef. reflexivity.
+      * rewrite IH by exact Hl. rewrite map_app. cbn [map].
+        destruct (build_states_checked (map convs l) (S i)) as [[e|sts]|]; cbn [model_res bind]; try reflexivity.
+        unfold convst at 2. cbn [a_final filter State_is_final length]. unfold convs at 1. cbn [s_final]. rewrite Ef.
+        rewrite <- app_assoc. cbn [app]. do 4 f_equal.
+        unfold convst, convs. cbn [State_id State_is_final State_classes State_successor State_default_successor s_final s_default].
+        rewrite Ef. reflexivity.
+Qed.
+
+Lemma bsc_len : forall l i sts, build_states_checked l i = Some (inr sts) -> length sts = length l.
+Proof.
+  induction l as [|s0 l IH]; intros i sts; cbn [build_states_checked].
+  - intros H. injection H as <-. reflexivity.
+  - destruct (ptry_from_list (map fst (s_trans s0))) as [p0|]; [|discriminate].
+    destruct (has_default s0 && pempty_complement p0); [discriminate|].
+    destruct (negb (has_default s0) && negb (pempty_complement p0)); [discriminate|].
+    cbv zeta. destruct (ptry_from_list (map fst (s_trans (cleanup s0)))) as [p|]; [|discriminate].
+    cbv [bind]. destruct (make_successor (cleanup s0) p) as [suc|]; [|discriminate].
+    destruct (build_states_checked l (S i)) as [[e|rest]|] eqn:E; try discriminate.
+    intros H. injection H as <-. cbn [length]. f_equal. apply (IH (S i)). exact E.
+Qed.
+
+Definition build_res (r : option (AutomatonBuilder * result Automaton Error)) : option bres :=
+  match r with
+  | Some (_, Ok a) => Some (BOk (conva a))
+  | Some (_, Err e) => option_map BErr (conve e)
+  | None => None
+  end.
+
+(* AutomatonBuilder::build on a builder whose size field counts its states: the model's build (the
+   verdict, the error kind, and every field of the automaton), provided every state has legal labels,
+   fewer than 2^31 - 1 transitions, and the fuel exceeds the number of transitions of each state *)
+Lemma link_build fuel b : AutomatonBuilder_size b = length (AutomatonBuilder_states b) ->
+  Forall (state_ok fuel) (AutomatonBuilder_states b) ->
+  build_res (M_AutomatonBuilder_build fuel b) = build {| id_map := []; bstates := convb_states b |}.
+Proof.
+  intros Hsz Hok. unfold M_AutomatonBuilder_build, AutomatonBuilder_build, build, enumerate, convb_states. cbn [bstates].
+  pose proof (link_build_loop fuel b (AutomatonBuilder_states b) 0%nat [] 0%nat [] Hok) as H. cbn [map app] in H.
+  destruct (AutomatonBuilder_build_loop1 fuel _ b [] 0%nat []) as [[[b' [a|e]]|[[acc n] sa]]|]; cbn [loop_res] in H; cbn [bind];
+    destruct (build_states_checked _ 0) as [[e'|sts]|] eqn:E; cbn [model_res] in H; try discriminate;
+    try (destruct (conve e) as [be|] eqn:Ee; cbn [option_map] in H; try discriminate).
+  - cbn [build_res option_map bind]. rewrite Ee. cbn [option_map]. congruence.
+  - cbn [app Nat.add] in H. assert (Hn : n = length (filter a_final sts)) by congruence.
+    assert (Hsa : map convst sa = sts) by congruence.
+    cbn [build_res bind]. f_equal. f_equal. unfold conva.
+    cbn [Automaton_num_states Automaton_num_final_states Automaton_initial_state Automaton_states].
+    rewrite Hsa. apply bsc_len in E. rewrite map_length in E. rewrite E, Hsz, Hn. reflexivity.
+  - reflexivity.
+Qed.
+
+(* ---- build_unchecked ---- *)
+Definition bu_res (r : option (loopres (AutomatonBuilder * Automaton) (list StateInConstruction * nat * list State))) :
+  option (option (nat * list astate)) :=
+  match r with
+  | Some (LoopDone (_, n, sa)) => Some (Some (n, map convst sa))
+  | Some (LoopReturn _) => Some None                       (* the loop has no return *)
+  | None => None
+  end.
+Definition bu_model (n : nat) (sa : list astate) (r : option (list astate)) : option (option (nat * list astate)) :=
+  match r with
+  | Some sts => Some (Some ((n + length (filter a_final sts))%nat, sa ++ sts))
+  | None => None
+  end.
+
+Lemma link_bu_loop fuel : forall l i acc n sa, Forall (state_ok fuel) l ->
+  bu_res (AutomatonBuilder_build_unchecked_loop1 fuel (combine (seq i (length l)) l) acc n sa)
+  = bu_model n (map convst sa) (build_states (map convs l) i).
+Proof.
+  induction l as [|s l IH]; intros i acc n sa Hok.
+  - cbn. rewrite Nat.add_0_r, app_nil_r. reflexivity.
+  - inversion Hok as [|? ? Hs Hl]; subst. destruct Hs as (Hsmall & Hv & Hf).
+    cbn [length seq combine AutomatonBuilder_build_unchecked_loop1 map build_states].
+    rewrite (canon_cleanup s Hsmall). cbn [bind].
+    assert (Hc : convs (remove_spec (choose_spec s)) = cleanup (convs s)).
+    { pose proof (link_cleanup s Hsmall) as H. rewrite (canon_cleanup s Hsmall) in H. cbn [option_map] in H. congruence. }
+    set (s1 := remove_spec (choose_spec s)) in *.
+    destruct (cleaned_ok fuel s (conj Hsmall (conj Hv Hf))) as (Hs1 & Hv1 & Hf1). fold s1 in Hs1, Hv1, Hf1.
+    rewrite <- Hc.
+    destruct (make_partition_cases s1 Hv1) as [(p & -> & Hp)|(-> & ->)]; [|reflexivity]. rewrite Hp. cbn [bind].
+    assert (Hpl : (length (CharPartition_list p) < fuel)%nat).
+    { apply ptry_len in Hp. unfold convp in Hp. cbn [ivs] in Hp. rewrite !map_length in Hp.
+      unfold convs in Hp. cbn [s_trans] in Hp. rewrite map_length in Hp. lia. }
+    rewrite (link_make_successor_fuel fuel s1 p Hpl).
+    destruct (make_successor (convs s1) (convp p)) as [suc|]; [|destruct (build_states (map convs l) (S i)); reflexivity].
+    cbn [bind].
+    destruct (StateInConstruction_is_final s1) eqn:Ef.
+    + rewrite IH by exact Hl. rewrite map_app. cbn [map].
+      destruct (build_states (map convs l) (S i)) as [sts|]; cbn [bu_model]; [|reflexivity].
+      unfold convst at 2. cbn [a_final filter State_is_final length]. unfold convs at 1. cbn [s_final]. rewrite Ef.
+      cbn [length]. rewrite <- app_assoc. cbn [app]. do 3 f_equal; [lia|].
+      unfold convst, convs. cbn [State_id State_is_final State_classes State_successor State_default_successor s_final s_default].
+      rewrite Ef. reflexivity.
+    + rewrite IH by exact Hl. rewrite map_app. cbn [map].
+      destruct (build_states (map convs l) (S i)) as [sts|]; cbn [bu_model]; [|reflexivity].
+      unfold convst at 2. cbn [a_final filter State_is_final length]. unfold convs at 1. cbn [s_final]. rewrite Ef.
+      rewrite <- app_assoc. cbn [app]. do 3 f_equal.
+      unfold convst, convs. cbn [State_id State_is_final State_classes State_successor State_default_successor s_final s_default].
+      rewrite Ef. reflexivity.
+Qed.
+
+Lemma bs_len : forall l i sts, build_states l i = Some sts -> length sts = length l.
+Proof.
+  induction l as [|s0 l IH]; intros i sts; cbn [build_states].
+  - intros H. injection H as <-. reflexivity.
+  - cbv zeta. destruct (ptry_from_list (map fst (s_trans (cleanup s0)))) as [p|]; [|discriminate].
+    destruct (make_successor (cleanup s0) p) as [suc|]; [|discriminate].
+    destruct (build_states l (S i)) as [rest|] eqn:E; [|discriminate].
+    intros H. injection H as <-. cbn [length]. f_equal. apply (IH (S i)). exact E.
+Qed.
+
+(* build_unchecked panics exactly where the model's does (overlapping labels after cleanup, a label
+   outside every interval) and otherwise returns the model's automaton *)
+Lemma link_build_unchecked fuel b : AutomatonBuilder_size b = length (AutomatonBuilder_states b) ->
+  Forall (state_ok fuel) (AutomatonBuilder_states b) ->
+  option_map (fun r => conva (snd r)) (M_AutomatonBuilder_build_unchecked fuel b)
+  = build_unchecked {| id_map := []; bstates := convb_states b |}.
+Proof.
+  intros Hsz Hok. unfold M_AutomatonBuilder_build_unchecked, AutomatonBuilder_build_unchecked, build_unchecked, enumerate, convb_states.
+  cbn [bstates].
+  pose proof (link_bu_loop fuel (AutomatonBuilder_states b) 0%nat [] 0%nat [] Hok) as H. cbn [map app] in H.
+  destruct (AutomatonBuilder_build_unchecked_loop1 fuel _ [] 0%nat []) as [[x|[[acc n] sa]]|]; cbn [bu_res] in H; cbn [bind];
+    destruct (build_states _ 0) as [sts|] eqn:E; cbn [bu_model] in H; try discriminate.
+  - cbn [app Nat.add] in H. assert (Hn : n = length (filter a_final sts)) by congruence.
+    assert (Hsa : map convst sa = sts) by congruence.
+    cbn [option_map snd]. f_equal. unfold conva.
+    cbn [Automaton_num_states Automaton_num_final_states Automaton_initial_state Automaton_states].
+    rewrite Hsa. apply bs_len in E. rewrite map_length in E. rewrite E, Hsz, Hn. reflexivity.
+  - reflexivity.
+Qed.
